@@ -34,6 +34,16 @@ def run(ctx):
                     steps.append(dict(ops=[U.op_ing(3, "t2"), U.op_eps("s1", "e4")], faults=[U.FAULTS[f]], faultname=f))
                 steps.append(dict(ops=[U.op_eps("s2", "e1")]))
                 hs.append(dict(id="fp-%s-%d-%d" % (f, oi, twice), opt=dict(opt), steps=steps))
+                # the same with a backend whose paths differ in their configuration (per-path ACLs, a map of its own: the
+                # `backmap` failure point only exists here) and that comes into being in the update that fails
+                acl = {"cors-enable": "true"}
+                steps = [dict(ops=U.base_ops() + [U.op_ing(1, "t1"), U.op_sec("c1", "crt:c1")]),
+                         dict(ops=[U.op_ing(2, "t6", extra_ann=acl), U.op_eps("s1", "e2")], faults=[U.FAULTS[f]], faultname=f)]
+                if twice:
+                    steps.append(dict(ops=[U.op_ing(3, "t5", extra_ann={"hsts": "true", "hsts-max-age": "77"}), U.op_eps("s1", "e4")],
+                                      faults=[U.FAULTS[f]], faultname=f))
+                steps.append(dict(ops=[U.op_eps("s2", "e1")]))
+                hs.append(dict(id="fpacl-%s-%d-%d" % (f, oi, twice), opt=dict(opt), steps=steps))
     out, inp = ctl.run_histories(ctx, hs, "c12", fresh=1)
     res = ctl.judge(ctx, out, "c12")
     events = ctl.report(ctx, res, out, inp, INVS, extra_sig=sig, confirm=False)
